@@ -124,6 +124,8 @@ impl Controller {
             }
             Mode::Gate { script } => {
                 let my = match worker_of(site, arg) {
+                    // only distance commands are scripted; everything else passes freely
+                    Some((_, _, kind)) if kind != 2 => None,
                     Some((true, shard, _)) => Some((Token::Worker(shard), true)),
                     Some((false, shard, _)) => Some((Token::Worker(shard), false)),
                     None if site == "store.owned.sent" => Some((Token::Caller, true)),
